@@ -60,6 +60,17 @@ if [ $CONFIRMED = yes ]; then
   python3 - "$META" "$NAME" "$PROP" "$RES" <<'PY'
 import json,sys
 meta=json.load(open(sys.argv[1])); name=sys.argv[2]
+import os
+prev='/verif/seeded/%s/meta.json'%name
+if os.path.exists(prev):
+    # keep the outcome of earlier evaluations (before the checks were strengthened)
+    try:
+        pm=json.load(open(prev))
+        hist=pm.get('earlier_check_results',[])
+        if pm.get('check_results') is not None: hist.append(pm['check_results'])
+        meta['earlier_check_results']=hist
+    except ValueError:
+        pass
 meta.update(id=name, breaks=sys.argv[3], origin='written by an independent sub-agent given only the property text',
   confirmed='applies, compiles, existing suite passes, demonstration fails with the change and passes without (checked in a scratch worktree)',
   check_results={k:int(v) for k,v in (x.split(':') for x in sys.argv[4].split())})
